@@ -149,6 +149,15 @@ const (
 
 var theSim *Sim
 
+// FairSchedule reports whether the running simulation picks tasks with a
+// strategy under which every runnable task is chosen with a probability
+// bounded away from zero at every decision (uniform / sticky). PCT-style and
+// starve-one schedules are deliberately unfair: oracles that rest on a
+// probabilistic fairness argument must not be applied under them.
+//
+//go:norace
+func FairSchedule() bool { return theSim == nil || theSim.strategy == stratUniform }
+
 // Active reports whether a simulation is running.
 //
 //go:norace
